@@ -462,9 +462,24 @@ pub fn run(tier: &str, seed: u64, replay: Option<String>) -> i32 {
         .into_iter()
         .filter(|o| refs.get(&super::c05::op_key(o)).map(|(c, _)| c == "ok").unwrap_or(false))
         .collect();
-    let n_thr = if thorough { 4000 } else { 200 };
+    let n_thr = if thorough { 4000 } else { 600 };
     let mut thr_cases: Vec<(Value, Vec<(String, String)>)> = vec![];
     let faulted_pool: Vec<&Value> = steps.iter().filter(|s| s["what"] != "intact").collect();
+    // the same pool grouped by what the step did when it ran alone (outcome class, kinds of
+    // warnings returned, non-finite fields): half of the picks below choose a group first, so a
+    // behaviour only a handful of steps show still meets concurrent healthy computations
+    let mut by_behaviour: BTreeMap<String, Vec<&Value>> = BTreeMap::new();
+    for (s, o) in steps.iter().zip(out.iter()) {
+        if s["what"] == "intact" {
+            continue;
+        }
+        let key = match o {
+            StepOutcome::Result(r) => format!("{}|{}|{}|{}", r["class"], r["i1"], r["warn_sig"].as_str().unwrap_or("-"), r["nonfinite"].as_array().map(|a| a.len()).unwrap_or(0)),
+            _ => "died".to_string(),
+        };
+        by_behaviour.entry(key).or_default().push(s);
+    }
+    let behaviour_groups: Vec<&Vec<&Value>> = by_behaviour.values().collect();
     for _ in 0..n_thr {
         if healthy.is_empty() || faulted_pool.is_empty() {
             break;
@@ -478,7 +493,7 @@ pub fn run(tier: &str, seed: u64, replay: Option<String>) -> i32 {
                 threads.push(
                     (0..n)
                         .map(|_| {
-                            let s = *rng.pick(&faulted_pool);
+                            let s = if rng.chance(1, 2) || behaviour_groups.is_empty() { *rng.pick(&faulted_pool) } else { let g = *rng.pick(&behaviour_groups); *rng.pick(g) };
                             json!({"op":"recompute","base":s["base"],"edits":s["edits"],"require_all":false})
                         })
                         .collect(),
@@ -688,6 +703,7 @@ pub fn run(tier: &str, seed: u64, replay: Option<String>) -> i32 {
     extra.insert("known_findings_hit".into(), json!(verdict.known_hit));
     extra.insert("determinism_selftest".into(), report::selftest_summary());
     extra.insert("threaded_cases".into(), json!(thr_cases.len()));
+    extra.insert("behaviour_groups_of_faulted_steps".into(), json!(by_behaviour.len()));
     extra.insert("scheduler_steps".into(), json!(thr_steps));
     extra.insert("distinct_interleavings".into(), json!(thr_interleavings.len()));
     extra.insert("context_switches_inside_critical_section".into(), json!(thr_switches_cs));
